@@ -61,8 +61,6 @@ Wrap(pl, v) == Atom[PreOf(pl)].b \o v \o Atom[PostOf(pl)].b
 
 (* ---------- escapers on bytes (as escapers.go behaves today, on the bytes that occur here) ---------- *)
 UNDEF == <<-1>>                            \* a byte this transcription does not cover (Trace: ref_undefined)
-MapBytes(F(_), s) == Flatten([k \in 1..Len(s) |-> F(s[k])])
-
 HtmlCh(c) == CASE c = 34 -> <<38, 35, 51, 52, 59>> [] c = 39 -> <<38, 35, 51, 57, 59>> [] c = 38 -> <<38, 97, 109, 112, 59>>
                [] c = 60 -> <<38, 108, 116, 59>> [] c = 62 -> <<38, 103, 116, 59>> [] OTHER -> <<c>>
 NoEntCh(c) == IF c = 38 THEN <<c>> ELSE HtmlCh(c)
@@ -88,12 +86,16 @@ MdHtmlFrom(s, i, intag, quote, stale) ==
     ELSE IF c \in {32, 9} THEN UNDEF
     ELSE <<c>> \o MdHtmlFrom(s, i + 1, FALSE, 0, stale)
 
+\* the character-wise escapers
+Ch(e, c) == CASE e = "html" -> HtmlCh(c) [] e = "noent" -> NoEntCh(c) [] e = "jsstr" -> JsCh(c) [] e = "md" -> MdCh(c)
+RECURSIVE MapCh(_, _, _)
+MapCh(e, s, i) == IF i > Len(s) THEN <<>> ELSE Ch(e, s[i]) \o MapCh(e, s, i + 1)
 Esc(e, v) ==
   CASE e = "raw"    -> v
-    [] e = "html"   -> MapBytes(HtmlCh, v)
-    [] e = "noent"  -> MapBytes(NoEntCh, v)
-    [] e = "jsstr"  -> <<34>> \o MapBytes(JsCh, v) \o <<34>>
-    [] e = "md"     -> MapBytes(MdCh, v)
+    [] e = "html"   -> MapCh(e, v, 1)
+    [] e = "noent"  -> MapCh(e, v, 1)
+    [] e = "jsstr"  -> <<34>> \o MapCh(e, v, 1) \o <<34>>
+    [] e = "md"     -> MapCh(e, v, 1)
     [] e = "mdhtml" -> MdHtmlFrom(v, 1, FALSE, 0, FALSE)
     [] e = "conv"   -> Conv(v)
 Defined(v) == \A k \in 1..Len(v) : v[k] >= 0
@@ -114,9 +116,6 @@ Matches(f, ctx) == ctx = f
 RECURSIVE DirStr(_)
 DirStr(d) == IF d = <<>> THEN "" ELSE d[1] \o "/" \o DirStr(Tail(d))
 PathStr(p) == DirStr(p.dir) \o p.name
-RECURSIVE UpStr(_)
-UpStr(n) == IF n = 0 THEN "" ELSE "../" \o UpStr(n - 1)
-RefStr(r) == (IF r.abs THEN "/" ELSE "") \o UpStr(r.up) \o DirStr(r.dir) \o r.name
 Resolve(dir, r) == [dir |-> (IF r.abs THEN <<>> ELSE SubSeq(dir, 1, Len(dir) - r.up)) \o r.dir, name |-> r.name]
 P(dir, base, f) == [dir |-> dir, name |-> base \o "." \o f]
 AbsRef(p) == [abs |-> TRUE, up |-> 0, dir |-> p.dir, name |-> p.name]
@@ -135,22 +134,25 @@ ExtendsN(ref) == [n |-> "extends", ref |-> ref]
 File(path, f, body) == [path |-> path, fmt |-> f, body |-> body]
 ShowLike == {"show", "render", "vrender", "call", "vcall"}
 
+\* Source text is produced as a sequence of fragments (the driver concatenates them).
 Pre(pl) == Atom[PreOf(pl)].s
 Post(pl) == Atom[PostOf(pl)].s
-Qual(n) == (IF n.ns = "" THEN "" ELSE n.ns \o ".") \o n.name
+Qual(n) == IF n.ns = "" THEN <<n.name>> ELSE <<n.ns, ".", n.name>>
+DirFrags(d) == IF Len(d) = 0 THEN <<>> ELSE IF Len(d) = 1 THEN <<d[1], "/">> ELSE <<d[1], "/", d[2], "/">>     \* directories are <= 2 deep
+RefFrags(r) == (IF r.abs THEN <<"/">> ELSE <<>>) \o (IF r.up = 0 THEN <<>> ELSE <<"../">>) \o DirFrags(r.dir) \o <<r.name>>
 RECURSIVE SrcNode(_), SrcBody(_, _)
 SrcNode(n) ==
-  CASE n.n = "text"    -> Atom[n.a].s
-    [] n.n = "show"    -> Pre(n.pl) \o "{{ " \o Atom[n.a].s \o " }}" \o Post(n.pl)
-    [] n.n = "render"  -> Pre(n.pl) \o "{{ render \"" \o RefStr(n.ref) \o "\" }}" \o Post(n.pl)
-    [] n.n = "vrender" -> Pre(n.pl) \o "{% var " \o n.var \o " = render \"" \o RefStr(n.ref) \o "\" %}{{ " \o n.var \o " }}" \o Post(n.pl)
-    [] n.n = "macro"   -> "{% macro " \o n.name \o (IF n.ty = "" THEN "" ELSE " " \o n.ty) \o " %}" \o SrcBody(n.body, 1) \o "{% end %}"
-    [] n.n = "call"    -> Pre(n.pl) \o "{{ " \o Qual(n) \o "() }}" \o Post(n.pl)
-    [] n.n = "vcall"   -> Pre(n.pl) \o "{% var " \o n.var \o " = " \o Qual(n) \o "() %}{{ " \o n.var \o " }}" \o Post(n.pl)
-    [] n.n = "import"  -> "{% import " \o (IF n.ns = "" THEN "" ELSE n.ns \o " ") \o "\"" \o RefStr(n.ref) \o "\""
-                            \o (IF n.only = "" THEN "" ELSE " for " \o n.only) \o " %}"
-    [] n.n = "extends" -> "{% extends \"" \o RefStr(n.ref) \o "\" %}"
-SrcBody(body, i) == IF i > Len(body) THEN "" ELSE SrcNode(body[i]) \o SrcBody(body, i + 1)
+  CASE n.n = "text"    -> <<Atom[n.a].s>>
+    [] n.n = "show"    -> <<Pre(n.pl), "{{ ", Atom[n.a].s, " }}", Post(n.pl)>>
+    [] n.n = "render"  -> <<Pre(n.pl), "{{ render \"">> \o RefFrags(n.ref) \o <<"\" }}", Post(n.pl)>>
+    [] n.n = "vrender" -> <<Pre(n.pl), "{% var ", n.var, " = render \"">> \o RefFrags(n.ref) \o <<"\" %}{{ ", n.var, " }}", Post(n.pl)>>
+    [] n.n = "macro"   -> <<"{% macro ", n.name>> \o (IF n.ty = "" THEN <<>> ELSE <<" ", n.ty>>) \o <<" %}">> \o SrcBody(n.body, 1) \o <<"{% end %}">>
+    [] n.n = "call"    -> <<Pre(n.pl), "{{ ">> \o Qual(n) \o <<"() }}", Post(n.pl)>>
+    [] n.n = "vcall"   -> <<Pre(n.pl), "{% var ", n.var, " = ">> \o Qual(n) \o <<"() %}{{ ", n.var, " }}", Post(n.pl)>>
+    [] n.n = "import"  -> <<"{% import ">> \o (IF n.ns = "" THEN <<>> ELSE <<n.ns, " ">>) \o <<"\"">> \o RefFrags(n.ref) \o <<"\"">>
+                            \o (IF n.only = "" THEN <<>> ELSE <<" for ", n.only>>) \o <<" %}">>
+    [] n.n = "extends" -> <<"{% extends \"">> \o RefFrags(n.ref) \o <<"\" %}">>
+SrcBody(body, i) == IF i > Len(body) THEN <<>> ELSE SrcNode(body[i]) \o SrcBody(body, i + 1)
 SrcFile(f) == [path |-> PathStr(f.path), src |-> SrcBody(f.body, 1)]
 
 (* ---------- file sets, macro environments ---------- *)
@@ -160,20 +162,30 @@ NodesOf(f, kind) == {f.body[k] : k \in {k \in 1..Len(f.body) : f.body[k].n = kin
 IsExtending(f) == Len(f.body) > 0 /\ f.body[1].n = "extends"
 \* an environment entry: the macro `name` (qualified by ns) is visible in the scope of file vis;
 \* its body runs in the scope of its home file
-Entry(vis, ns, m, home) == [vis |-> PathStr(vis.path), ns |-> ns, name |-> m.name, ty |-> m.ty, body |-> m.body, home |-> home]
-Own(f) == {Entry(f, "", m, f) : m \in NodesOf(f, "macro")}
-Exported(f) == {m \in NodesOf(f, "macro") : m.exp}
-RECURSIVE Env(_, _)
-Env(FS, f) ==
-  Own(f) \cup UNION { LET t == FileAt(FS, Resolve(f.path.dir, im.ref)) IN
-                        {Entry(f, im.ns, m, t) : m \in {m \in Exported(t) : im.only = "" \/ im.only = m.name}} \cup Env(FS, t)
-                      : im \in NodesOf(f, "import") }
+HomeOf(f) == [path |-> f.path, fmt |-> f.fmt]       \* what a body needs to know of the file it is written in
+Entry(vis, ns, m, home) == [vis |-> PathStr(vis.path), ns |-> ns, name |-> m.name, ty |-> m.ty, body |-> m.body, home |-> HomeOf(home)]
+\* (environments are sequences: no set of large records has to be normalised)
+Map(sq, F(_)) == [k \in 1..Len(sq) |-> F(sq[k])]
+MacrosOf(f) == SelectSeq(f.body, LAMBDA n : n.n = "macro")
+ImportsOf(f) == SelectSeq(f.body, LAMBDA n : n.n = "import")
+Own(f) == LET ms == MacrosOf(f) IN [k \in 1..Len(ms) |-> Entry(f, "", ms[k], f)]
+Exported(f) == SelectSeq(MacrosOf(f), LAMBDA m : m.exp)
+RECURSIVE Env(_, _), EnvImports(_, _, _, _)
+EnvImports(FS, f, ims, i) ==
+  IF i > Len(ims) THEN <<>>
+  ELSE LET im == ims[i]
+           t == FileAt(FS, Resolve(f.path.dir, im.ref))
+           ex == SelectSeq(Exported(t), LAMBDA m : im.only = "" \/ im.only = m.name)
+       IN [k \in 1..Len(ex) |-> Entry(f, im.ns, ex[k], t)] \o Env(FS, t) \o EnvImports(FS, f, ims, i + 1)
+Env(FS, f) == Own(f) \o EnvImports(FS, f, ImportsOf(f), 1)
 \* running an extending file = running its layout with the child's exported macros in the layout's scope
 RunFile(FS, f) == IF IsExtending(f) THEN FileAt(FS, Resolve(f.path.dir, f.body[1].ref)) ELSE f
 RunEnv(FS, f) == IF IsExtending(f)
-                 THEN LET lay == RunFile(FS, f) IN Env(FS, lay) \cup {Entry(lay, "", m, f) : m \in Exported(f)} \cup Env(FS, f)
+                 THEN LET lay == RunFile(FS, f) ex == Exported(f) IN
+                      Env(FS, lay) \o [k \in 1..Len(ex) |-> Entry(lay, "", ex[k], f)] \o Env(FS, f)
                  ELSE Env(FS, f)
-Lookup(env, home, n) == CHOOSE e \in env : e.vis = PathStr(home.path) /\ e.ns = n.ns /\ e.name = n.name
+Lookup(env, home, n) == LET vis == PathStr(home.path) IN
+                        env[CHOOSE k \in 1..Len(env) : env[k].vis = vis /\ env[k].ns = n.ns /\ env[k].name = n.name]
 MacroFmt(e) == IF e.ty = "" THEN e.home.fmt ELSE FmtOfTy(e.ty)
 
 (* ==================================================================================================
@@ -196,7 +208,7 @@ RefBody(FS, home, env, ctx, body, i) ==
            LET e == Lookup(env, home, n) mf == MacroFmt(e) IN
            Wrap(n.pl, Esc(ShowRule(Ty(mf), CtxAt(ctx, n.pl)), RefBody(FS, e.home, env, mf, e.body, 1))) \o rest
       [] OTHER -> rest
-RefFile(FS, f) == LET r == RunFile(FS, f) IN RefBody(FS, r, RunEnv(FS, f), r.fmt, r.body, 1)
+RefFile(FS, f) == LET r == RunFile(FS, f) IN RefBody(FS, HomeOf(r), RunEnv(FS, f), r.fmt, r.body, 1)
 RefOut(v) == RefFile(v.fs, FileAt(v.fs, v.main))
 
 (* ==================================================================================================
@@ -207,7 +219,7 @@ RefOut(v) == RefFile(v.fs, FileAt(v.fs, v.main))
 \*                 (FALSE = the code as written: no test)
 \*   macroTagCtx : inside a macro with an explicit result type the lexer stays in the macro's
 \*                 context after an HTML tag (FALSE = as written: `l.ctx = l.tag.ctx` falls back to the
-\*                 FILE's context)
+\*                 FILE's tag context: Markdown in a Markdown file, HTML elsewhere)
 AsWritten == [renderTest |-> FALSE, macroTagCtx |-> FALSE]
 Fixed == [renderTest |-> TRUE, macroTagCtx |-> TRUE]
 OnlyRenderFixed == [renderTest |-> TRUE, macroTagCtx |-> FALSE]
@@ -216,8 +228,10 @@ OnlyRenderFixed == [renderTest |-> TRUE, macroTagCtx |-> FALSE]
 FormatOfCtx(ctx) == IF ctx = "attr" THEN "other" ELSE ctx
 \* canOptimizeShowMacro (format part): `from == to || from == Markdown && to == HTML`, never above ContextMarkdown
 CanOptimize(from, ctx) == ctx # "attr" /\ (from = FormatOfCtx(ctx) \/ (from = "md" /\ FormatOfCtx(ctx) = "html"))
-\* what an HTML tag resets the lexer context to (lexer.go: tag.ctx = file context; only in HTML/Markdown files)
-TagCtx(f) == IF f \in {"html", "md"} THEN f ELSE "none"
+\* what the end of an HTML tag resets the lexer context to (lexer.go: `l.ctx = l.tag.ctx`, and tag.ctx is
+\* Markdown in a Markdown file, HTML in every other file); tags are seen in HTML and Markdown contexts only
+TagCtx(f) == IF f = "md" THEN "md" ELSE "html"
+SeesTags(ctx) == ctx \in {"html", "md"}
 
 Top(rs) == rs[Len(rs)]
 Put(rs, b) == [rs EXCEPT ![Len(rs)] = @ \o b]
@@ -247,7 +261,7 @@ ImplBody(FS, home, env, ctx, tagctx, body, i, rs, V) ==
   ELSE LET n == body[i] IN
     IF n.n = "text" THEN
       \* after an HTML tag the lexer context becomes tag.ctx
-      LET ctx2 == IF n.a = "G" /\ tagctx # "none" /\ ~V.macroTagCtx THEN tagctx ELSE ctx IN
+      LET ctx2 == IF n.a = "G" /\ SeesTags(ctx) /\ ~V.macroTagCtx THEN tagctx ELSE ctx IN
       ImplBody(FS, home, env, ctx2, tagctx, body, i + 1, Put(rs, Atom[n.a].b), V)
     ELSE IF n.n = "show" THEN
       ImplBody(FS, home, env, ctx, tagctx, body, i + 1,
@@ -258,7 +272,7 @@ ImplBody(FS, home, env, ctx, tagctx, body, i, rs, V) ==
           t == FileAt(FS, Resolve(home.path.dir, n.ref))
           e == Lookup(env, home, n)
           callee == IF isRender
-                    THEN LET r == RunFile(FS, t) IN [home |-> r, fmt |-> r.fmt, body |-> r.body]
+                    THEN LET r == RunFile(FS, t) IN [home |-> HomeOf(r), fmt |-> r.fmt, body |-> r.body]
                     ELSE [home |-> e.home, fmt |-> MacroFmt(e), body |-> e.body]
           cenv == IF isRender THEN RunEnv(FS, t) ELSE env
           fast == CASE n.n = "call"   -> CanOptimize(callee.fmt, c)                                   \* canOptimizeShowMacro
@@ -268,7 +282,7 @@ ImplBody(FS, home, env, ctx, tagctx, body, i, rs, V) ==
       IN ImplBody(FS, home, env, ctx, tagctx, body, i + 1, Put(r1, Atom[PostOf(n.pl)].b), V)
     ELSE ImplBody(FS, home, env, ctx, tagctx, body, i + 1, rs, V)
 ImplFile(FS, f, V) == LET r == RunFile(FS, f) IN
-                      ImplBody(FS, r, RunEnv(FS, f), r.fmt, TagCtx(r.fmt), r.body, 1, << <<>> >>, V)[1]
+                      ImplBody(FS, HomeOf(r), RunEnv(FS, f), r.fmt, TagCtx(r.fmt), r.body, 1, << <<>> >>, V)[1]
 ImplOut(v, V) == ImplFile(v.fs, FileAt(v.fs, v.main), V)
 
 (* ==================================================================================================
@@ -292,7 +306,9 @@ ItemNodes(it, i, qref(_)) ==
     [] it.k = "R" -> <<RenderN(qref(it.f), "text")>>
     [] it.k = "V" -> <<VRenderN(qref(it.f), "w" \o k, "text")>>
     [] it.k = "K" -> <<MacroN("M" \o k, TRUE, it.f, <<TextN("H"), ShowN("C", "text")>>), CallN("", "M" \o k, "text")>>
-BodyNodes(body, qref(_)) == Flatten([i \in 1..Len(body) |-> ItemNodes(body[i], i, qref)])
+BodyNodes(body, qref(_)) ==      \* bodies have at most 3 items
+  (IF Len(body) >= 1 THEN ItemNodes(body[1], 1, qref) ELSE <<>>) \o (IF Len(body) >= 2 THEN ItemNodes(body[2], 2, qref) ELSE <<>>)
+  \o (IF Len(body) >= 3 THEN ItemNodes(body[3], 3, qref) ELSE <<>>)
 
 QBody == <<TextN("Q"), ShowN("C", "text")>>
 DecoyBody == <<TextN("D")>>
@@ -407,8 +423,9 @@ ShowSites(FS) ==   \* [ctx, node, dir] of every show-like node, in file bodies a
          : k \in 1..Len(FS)}
 MismatchedRender(FS) ==
   \E st \in ShowSites(FS) : st.node.n = "render" /\ ~CanOptimize(RunFile(FS, FileAt(FS, Resolve(st.dir, st.node.ref))).fmt, st.ctx)
-\*  (2) a tag in the body of a macro whose explicit type is not the file's format (HTML/Markdown files)
+\*  (2) a tag in the body of a macro whose explicit type is html/markdown but not what a tag of the file resets to
 ForeignTagMacro(FS) ==
-  \E k \in 1..Len(FS) : FS[k].fmt \in {"html", "md"} /\
-     \E m \in NodesOf(FS[k], "macro") : m.ty # "" /\ FmtOfTy(m.ty) # FS[k].fmt /\ \E j \in 1..Len(m.body) : m.body[j] = TextN("G")
+  \E k \in 1..Len(FS) :
+     \E m \in NodesOf(FS[k], "macro") : /\ m.ty # "" /\ SeesTags(FmtOfTy(m.ty)) /\ FmtOfTy(m.ty) # TagCtx(FS[k].fmt)
+                                        /\ \E j \in 1..Len(m.body) : m.body[j] = TextN("G")
 =============================================================================
